@@ -6,6 +6,7 @@ require (
 	github.com/Flowpack/prunner v0.0.0
 	github.com/anishathalye/porcupine v1.3.0
 	github.com/apex/log v1.9.0
+	github.com/go-chi/jwtauth/v5 v5.0.2
 	github.com/gofrs/uuid v4.2.0+incompatible
 	github.com/taskctl/taskctl v1.3.1-0.20210426182424-d8747985c906
 )
@@ -14,7 +15,15 @@ require (
 	github.com/briandowns/spinner v1.18.1 // indirect
 	github.com/fatih/color v1.13.0 // indirect
 	github.com/friendsofgo/errors v0.9.2 // indirect
+	github.com/go-chi/chi/v5 v5.0.7 // indirect
 	github.com/json-iterator/go v1.1.12 // indirect
+	github.com/lestrrat-go/backoff/v2 v2.0.8 // indirect
+	github.com/lestrrat-go/blackmagic v1.0.1 // indirect
+	github.com/lestrrat-go/httpcc v1.0.1 // indirect
+	github.com/lestrrat-go/iter v1.0.2 // indirect
+	github.com/lestrrat-go/jwx v1.2.21 // indirect
+	github.com/lestrrat-go/option v1.0.0 // indirect
+	github.com/liamylian/jsontime/v2 v2.0.0 // indirect
 	github.com/logrusorgru/aurora v2.0.3+incompatible // indirect
 	github.com/mattn/go-colorable v0.1.12 // indirect
 	github.com/mattn/go-isatty v0.0.14 // indirect
@@ -23,6 +32,7 @@ require (
 	github.com/modern-go/reflect2 v1.0.2 // indirect
 	github.com/pkg/errors v0.9.1 // indirect
 	github.com/sirupsen/logrus v1.8.1 // indirect
+	golang.org/x/crypto v0.0.0-20220331220935-ae2d96664a29 // indirect
 	golang.org/x/sync v0.1.0 // indirect
 	golang.org/x/sys v0.3.0 // indirect
 	golang.org/x/term v0.3.0 // indirect
